@@ -3,6 +3,7 @@ package main
 import (
 	"math"
 	"math/big"
+	"strconv"
 
 	"verif/harness/lib"
 )
@@ -227,8 +228,8 @@ func (g *treeGen) perturb(a *T, k int) (*T, []Path) {
 			old.Keys = append(old.Keys[:i:i], old.Keys[i+1:]...)
 		case op <= 3 && old.K == KObj: // add a member
 			key := lib.Pick(r, keyAlphabet)
-			if old.member(key) != nil {
-				key = "zz"
+			for n := 0; old.member(key) != nil; n++ {
+				key = "zz" + strconv.Itoa(n)
 			}
 			v := g.tree(1)
 			old.Keys = append(old.Keys, key)
